@@ -73,6 +73,14 @@ def build_corpus(tier, rng):
     for mask in range(8):
         vs = [mkv("A", "tuple1", bool(mask & 1), gen=True), mkv("B", "unit", bool(mask & 2)), mkv("C", "named2", bool(mask & 4))]
         items.append(("generic", Item("E", vs, tparams=1, cparams=mask % 2)))
+    for j, form in enumerate(("braces", "brackets", "mixed", "macro", "macro")):
+        vs = [mkv("F%d" % i, KINDS[(i + j) % len(KINDS)], i % 2 == 1) for i in range(5)]
+        it = Item("E", vs)
+        if form == "macro":
+            it.via_macro = True
+        else:
+            it.attr_delims = {"braces": [1], "brackets": [2], "mixed": [0, 1, 2]}[form]
+        items.append(("attr-forms", it))
     for fam, it in items:
         k = c.add_def(it, family=fam, derives=["EnumIter", "EnumCount"])
         n = len(it.variants)
